@@ -5,6 +5,7 @@ import ast
 
 from .. import AnalysisError, flow, states, rules, gd, cmp
 from ..report import Ctx
+from ..canon import alpha_text
 
 SSO = "nrel/hive/state/simulation_state/update/step_simulation_ops.py"
 TO = "nrel/hive/util/tuple_ops.py"
@@ -139,7 +140,7 @@ def judge_order(ctx: Ctx, fn, v: ast.AST, vs, all_src=None):
         right, rkw = unwrap(v.right)
         if left is None or right is None:
             raise AnalysisError(f"update order: unrecognised concatenation {flow.dump(v)[:160]}")
-        part = f"TupleOps.partition(lambda v: isinstance(v.vehicle_state, ChargeQueueing), {vs})"
+        part = alpha_text(f"TupleOps.partition(lambda v: isinstance(v.vehicle_state, ChargeQueueing), {vs})")
         dl, dr = flow.dump(left), flow.dump(right)
         if dl == f"{part}[1]" and dr == f"{part}[0]":
             ctx.ok("D1", "ORD.queue-order", "all ChargeQueueing vehicles are updated after all other vehicles", fn, v)
